@@ -40,8 +40,10 @@ func c14ConcRun(sc c14Conc) (vk.Result, error) {
 	}
 	snd, rcv := MakeSession(5, mk()), MakeSession(5, mk())
 	defer func() { go snd.Close(); go rcv.Close() }()
+	var links []*vk.Link
 	for i := 0; i < sc.Conns; i++ {
 		l := vk.NewLink(i, false)
+		links = append(links, l)
 		l.SetAuto(vk.BtoA, true)
 		if sc.SlowConn {
 			l.SetLimit(vk.AtoB, 20000)
@@ -162,7 +164,34 @@ func c14ConcRun(sc c14Conc) (vk.Result, error) {
 		}
 		return true
 	}
-	werr := w.wait("every datagram to reach its stream's reader", all)
+	// Every sender has returned. Once the wire is drained (nothing pending on a link, nothing unread by the receiving
+	// goroutines) and the readers have not been handed anything for 5 s, what is missing will never come: that is
+	// evaluated below as a loss, without waiting for the goroutine-dump criterion.
+	drained := func() bool {
+		for _, l := range links {
+			if l.PendingBytes(vk.AtoB) != 0 || l.Unread(vk.AtoB) != 0 {
+				return false
+			}
+		}
+		return true
+	}
+	lastP, lastChange := atomic.LoadInt64(&progress), time.Now()
+	lost := false
+	werr := w.wait("every datagram to reach its stream's reader", func() bool {
+		if all() {
+			return true
+		}
+		if p := atomic.LoadInt64(&progress); p != lastP || !drained() {
+			lastP, lastChange = p, time.Now()
+		} else if time.Since(lastChange) > 5*time.Second {
+			lost = true
+			return true
+		}
+		return false
+	})
+	if lost {
+		werr = vk.Violatef("the wire is drained and the readers have not been handed anything for 5 s")
+	}
 	mu.Lock()
 	defer mu.Unlock()
 	for i, st := range streams {
